@@ -126,11 +126,11 @@ class CWMH(ProposalBasedSampler):
 
     def step(self):
         # Initialize x_t which is used to store the current CWMH sample
-        x_t = self.current_point.copy()
+        x_t = np.array(self.current_point, dtype=float) # float copy: an integer-typed point would truncate every accepted coordinate
 
         # Initialize x_star which is used to store the proposed sample by
         # updating the current sample component-by-component
-        x_star = self.current_point.copy()
+        x_star = x_t.copy()
 
         # Propose a sample x_all_components from the proposal distribution
         # for all the components
